@@ -737,6 +737,12 @@ def run(ctx: vf.Ctx):
     ctx.cov['functions_with_theorems'] = ['QuickPartitioner.run (partial correctness: C08_quick_correct_partial)', 'check_partition (C08_check_sound)']
     ctx.cov['correspondence_only'] = ['QuickPartitioner liveness (no RuntimeError) without barriers', 'Circuit.append/pop cycle placement']
     ctx.cov['uncovered'] = ['ScanPartitioner, ClusteringPartitioner, GreedyPartitioner, GTQCPartitioner, TDAGPartitioner, GroupSingleQuditGatePass, ExtendBlockSizePass have no model: decided per run by the verified oracle']
+    if not ctx.quick():
+        # independent re-check of the compiled proofs
+        rc, o_, e_ = vf.sh(['coqchk', '-silent', '-o', '-Q', str(vf.COQ), 'BQ', 'BQ.props.C08'], cwd=str(vf.COQ), timeout=1500)
+        ctx.cov['coqchk'] = 'ok' if rc == 0 else 'failed'
+        if rc != 0:
+            ctx.broken_obligation('coqchk rejects the compiled proofs of props/C08.vo', (o_ + e_)[-2000:])
     ctx.cov['c08_wall_s'] = round(time.time() - t0, 1)
 
 
